@@ -75,6 +75,69 @@ def awq_orders():
     return f(o), f(r)
 
 
+CANON_CREATE = ["qtype == qint4", "scale.dtype == torch.float16", "axis == 0", "group_size == 128", "len(size) == 2",
+                "data.device.type == 'cuda'", "torch.cuda.get_device_capability(data.device)[0] >= 8"]
+
+
+def awq_create_conds_behavioural():
+    """the decision of `QBitsTensor.create`, read off its behaviour on a stand-in CUDA device (python -O only): every
+    atomic condition is swept alone, then all 2^7 combinations of a satisfying / a non-satisfying value are evaluated; if the
+    outcome is the conjunction of the seven atoms with the expected satisfying sets, the canonical conjunct list is returned"""
+    import itertools
+    import torch
+    import optimum.quanto as q
+    from optimum.quanto.tensor.qbits import QBitsTensor
+
+    class FakeCuda(torch.Tensor):
+        device = property(lambda self: torch.device("cuda:0"))
+
+    cap = [(8, 0)]
+    saved = torch.cuda.get_device_capability
+    torch.cuda.get_device_capability = lambda d=None: cap[0]
+    dts = {"f16": torch.float16, "f32": torch.float32, "bf16": torch.bfloat16}
+
+    def outcome(qn, F, axis, gs, rank, dev, c):
+        size = {1: [512], 2: [4, 128], 3: [4, 2, 64], 4: [4, 2, 2, 32]}[rank]
+        rows = 512 // gs
+        codes = torch.zeros((rows, gs) if axis == 0 else (gs, rows), dtype=torch.uint8)
+        scale = torch.ones((rows, 1) if axis == 0 else (1, rows), dtype=dts[F])
+        zp = torch.zeros(tuple(scale.shape), dtype=torch.int8)
+        cap[0] = (c, 0)
+        data = codes.as_subclass(FakeCuda) if dev == "cuda" else codes
+        try:
+            r = QBitsTensor.create(q.qtypes[qn], axis, gs, torch.Size(size), list(torch.empty(size).stride()), data, scale, zp)
+            return type(r).__name__ == "AWQBitsTensor"
+        except Exception:  # noqa
+            return None
+    try:
+        base = dict(qn="qint4", F="f16", axis=0, gs=128, rank=2, dev="cuda", c=8)
+        sweeps = {"qn": (["qint2", "qint4"], {"qint4"}), "F": (["f16", "f32", "bf16"], {"f16"}), "axis": ([0, -1], {0}), "gs": ([32, 64, 128, 256], {128}),
+                  "rank": ([1, 2, 3, 4], {2}), "dev": (["cuda", "cpu"], {"cuda"}), "c": ([6, 7, 8, 9, 10], {8, 9, 10})}
+        for k, (vals, want) in sweeps.items():
+            got = {v for v in vals if outcome(**dict(base, **{k: v}))}
+            if got != want:
+                return [f"<{k} selects {sorted(map(str, got))}>", "=> AWQBitsTensor", "else QBitsTensor"]
+        false_of = dict(qn="qint2", F="f32", axis=-1, gs=64, rank=4, dev="cpu", c=7)
+        keys = list(base)
+        for bitsel in itertools.product([True, False], repeat=len(keys)):
+            cfg = {k: (base[k] if b else false_of[k]) for k, b in zip(keys, bitsel)}
+            if bool(outcome(**cfg)) != all(bitsel):
+                return ["<not a conjunction>", "=> AWQBitsTensor", "else QBitsTensor"]
+        return CANON_CREATE + ["=> AWQBitsTensor", "else QBitsTensor"]
+    finally:
+        torch.cuda.get_device_capability = saved
+
+
+def previous_list(name):
+    """the value a list definition has in the current Generated.lean (used when this run cannot regenerate it)"""
+    try:
+        src = open(os.path.join(LEAN, "Quanto", "Generated.lean")).read()
+        m = re.search(rf"def {name} : List String := \[(.*)\]", src)
+        return [x for x in re.findall(r'"((?:[^"\\]|\\.)*)"', m.group(1))] if m else None
+    except OSError:
+        return None
+
+
 def awq_create_conds():
     """conjuncts of the condition under which `QBitsTensor.create` builds an AWQBitsTensor, and of the
     condition under which `_to_copy` converts back to the standard representation first (source text)"""
@@ -104,6 +167,18 @@ def awq_create_conds():
         ifs = [n for n in fn.body if isinstance(n, ast.If)]
         out["to_copy"] = [" | ".join(conj(i.test)) + " => " + ";".join(ast.unparse(n) for n in i.body) for i in ifs]
         out["to_copy"].append("return " + ",".join(ast.unparse(n.value).split("(")[0] for n in fn.body if isinstance(n, ast.Return)))
+    if out["create"] == ["<not found>"] or not out["create"][-2:] == ["=> AWQBitsTensor", "else QBitsTensor"] or len(out["create"]) < 3:
+        # the condition is not written as one `if` in `create` any more: read the decision off the behaviour instead
+        # (needs python -O, i.e. the C15 run; other runs keep what the last C15 run established)
+        if sys.flags.optimize:
+            try:
+                out["create"] = awq_create_conds_behavioural()
+            except Exception:  # noqa
+                pass
+        else:
+            prev = previous_list("awqCreateConds")
+            if prev:
+                out["create"] = prev
     return out
 
 
